@@ -347,11 +347,9 @@ def rules(rep, m):
                 cc = cx.canon(cond)
                 if any(re.search(p, cc) for p in pats):
                     dom = True
-            for anc in inv.enclosing_chain(f, c):
-                if anc["kind"] == "IfStmt":
-                    cc = cx.canon(kids(anc)[0])
-                    if any(re.search(p, cc) for p in pats) and any(y is c for y in walk(kids(anc)[1])):
-                        dom = True
+            for cc in inv.dominating_conditions(cx, f, c):
+                if not cc.startswith("!") and any(re.search(p, cc) for p in pats):
+                    dom = True
             # early-return guard: if (!member) return ...; before the call
             for s_ in kids(f.body)[:idx if idx is not None else 0]:
                 if s_["kind"] == "IfStmt":
